@@ -62,7 +62,7 @@ def gen(rng, ctx):
 def check(case, ctx):
     cg = ctx.cg
     cd = case["c"]
-    c = G.build(cg, cd, "graph")
+    c = G.build(cg, cd, "sparse" if len(cd["nodes"]) % 3 == 0 else "graph")
     net = Net.of(c)
     ctx.count(f"shape:{case['shape'].split('+')[0]}")
     if "hostile" in case["shape"]:
